@@ -43,8 +43,8 @@ def roots_of(e, acc=None):
                 roots_of(a, acc)
     elif k == "ptr":
         for p in e[2]:
-            if isinstance(p, tuple):
-                roots_of(p, acc)
+            if isinstance(p, tuple) and p[0] == "i" and isinstance(p[1], tuple):
+                roots_of(p[1], acc)
     return acc
 
 
@@ -55,7 +55,7 @@ def has_top(e):
     if k == "op":
         return any(has_top(a) for a in e[3:] if isinstance(a, tuple))
     if k == "ptr":
-        return any(isinstance(p, tuple) and has_top(p) for p in e[2])
+        return any(isinstance(p, tuple) and p[0] == "i" and isinstance(p[1], tuple) and has_top(p[1]) for p in e[2])
     return False
 
 
@@ -85,7 +85,7 @@ def ev(e, env):
     if k == "r":
         return env[e[1]]
     if k == "ptr":
-        return ("ptr", e[1], tuple(ev(p, env) if isinstance(p, tuple) else p for p in e[2]))
+        return ("ptr", e[1], tuple((("i", ev(p[1], env)) if (isinstance(p, tuple) and isinstance(p[1], tuple)) else p) for p in e[2]))
     if k == "op":
         op, t = e[1], e[2]
         bits = _bits(t)
@@ -149,6 +149,14 @@ def ev(e, env):
 
 class Unknown(Exception):
     pass
+
+
+def fields_of(path):
+    """(element index, field tuple) of a canonical location path: (('i', d), f1, f2) -> (d, (f1, f2));
+    a missing leading index means element 0"""
+    if path and isinstance(path[0], tuple) and path[0][0] == "i":
+        return path[0][1], tuple(path[1:])
+    return 0, tuple(path)
 
 
 def mk(op, t, *args):
@@ -247,6 +255,7 @@ class PE:
         self.seen = set()
         self.stats = {"splits": 0, "blocks": 0, "inlined": 0}
         self.max_visits = 0
+        self.memo_joins = False
 
     # ---- hooks ---------------------------------------------------------------------------------
     def init_mem(self, state, base, path, type_):
@@ -270,6 +279,10 @@ class PE:
     def stop_at_block(self, state, frame, block, prev):
         return None
 
+    def trace_digest(self, state):
+        """part of the path history that distinguishes abstract states at a join (memo_joins)"""
+        return ()
+
     # ---- evaluation of operands -------------------------------------------------------------------
     def val(self, frame, v, state):
         k = v.kind
@@ -289,7 +302,12 @@ class PE:
                 if base[0] != "ptr":
                     return TOP
                 idx = [self.val(frame, a, state) for a in v.args[1:]]
-                return self._gep(base, idx, None)
+                from .ir import elem_type
+                try:
+                    sty = elem_type(v.args[0].type)
+                except Exception:
+                    sty = None
+                return self._gep(base, idx, sty)
             return TOP
         if k == "undef" or k == "zero":
             return C(0) if k == "zero" else TOP
@@ -298,24 +316,61 @@ class PE:
         return TOP
 
     def _gep(self, base, idx, srcty):
+        """path elements: ('i', n|expr) = element index (pointer arithmetic / array subscript), plain int = struct field"""
         path = list(base[2])
         first = idx[0]
         rest = idx[1:]
-        if not (is_const(first) and first[1] == 0):
-            # pointer arithmetic on the last element
-            if path and not isinstance(path[-1], tuple) and is_const(first):
-                path[-1] = path[-1] + first[1]
-            elif path and isinstance(path[-1], tuple):
-                path[-1] = mk("add", "i64", path[-1], first)
-                if path[-1] == TOP:
-                    path[-1] = TOP
-            elif path:
-                path[-1] = mk("add", "i64", C(path[-1]), first)
+        fv = first[1] if is_const(first) else first
+        if path and isinstance(path[-1], tuple) and path[-1][0] == "i":
+            last = path[-1][1]
+            if isinstance(last, int) and isinstance(fv, int):
+                path[-1] = ("i", last + fv)
             else:
-                path.append(first[1] if is_const(first) else first)
+                a = C(last) if isinstance(last, int) else last
+                bb = C(fv) if isinstance(fv, int) else fv
+                path[-1] = ("i", mk("add", "i64", a, bb))
+        else:
+            path.append(("i", fv))
+        t = srcty
         for r in rest:
-            path.append(r[1] if is_const(r) else r)
+            rv = r[1] if is_const(r) else r
+            ae = array_elem(t) if t else None
+            if ae:
+                path.append(("i", rv))
+                t = ae[1]
+            elif t and t.startswith("%") and isinstance(rv, int):
+                path.append(rv)
+                fields = self.prog_structs(t)
+                t = fields[rv] if fields and rv < len(fields) else None
+            elif t and t.startswith("{") and isinstance(rv, int):
+                path.append(rv)
+                parts = split_top(t.strip()[1:-1])
+                t = parts[rv].strip() if rv < len(parts) else None
+            else:
+                path.append(("i", rv) if not isinstance(rv, int) else rv)
+                t = None
         return ("ptr", base[1], tuple(path))
+
+    @staticmethod
+    def _ptrdiff(a, b):
+        """difference in elements of two pointers into the same object that differ only in their last element index"""
+        pa, pb = list(a[2]), list(b[2])
+        def last(p):
+            if p and isinstance(p[-1], tuple) and p[-1][0] == "i":
+                return p[:-1], p[-1][1]
+            return p, 0
+        ha, la = last(pa)
+        hb, lb = last(pb)
+        if ha != hb or not isinstance(la, int) or not isinstance(lb, int):
+            return TOP
+        return C(la - lb)
+
+    def prog_structs(self, t):
+        for m in self.prog.modules:
+            f = m.structs.get(t)
+            if f:
+                return f
+        return None
 
     # ---- memory -------------------------------------------------------------------------------------
     def _loc(self, state, addr):
@@ -324,15 +379,20 @@ class PE:
             return None
         path = []
         for p in addr[2]:
-            if isinstance(p, tuple):
-                vs = state.values(p, cap=1)
-                if vs is None or len(vs) != 1:
-                    return None
-                path.append(next(iter(vs)))
+            if isinstance(p, tuple) and p[0] == "i":
+                v = p[1]
+                if not isinstance(v, int):
+                    vs = state.values(v, cap=1)
+                    if vs is None or len(vs) != 1:
+                        return None
+                    v = next(iter(vs))
+                path.append(("i", v))
+            elif isinstance(p, tuple):
+                return None
             else:
                 path.append(p)
-        # trailing zeros are the same address as the shorter path (first member)
-        while path and path[-1] == 0:
+        # trailing zero steps denote the same address as the shorter path (first element / first member)
+        while path and (path[-1] == 0 or path[-1] == ("i", 0)):
             path.pop()
         return (addr[1], tuple(path))
 
@@ -342,6 +402,13 @@ class PE:
             return TOP
         if loc in state.mem:
             return state.mem[loc]
+        if loc[0].startswith("@"):
+            g = self.global_bytes(loc[0][1:])
+            if g is not None:
+                state.trace.append(("gload", loc[0][1:]))
+                el, fl = fields_of(loc[1])
+                if isinstance(el, int) and not fl and 0 <= el < len(g) and type_ == "i8":
+                    return C(_s(g[el], 8))
         v = self.init_mem(state, loc[0], loc[1], type_)
         if v != TOP:
             state.mem[loc] = v
@@ -356,6 +423,23 @@ class PE:
                     state.mem[k] = TOP
             return
         state.mem[loc] = val
+
+    def global_bytes(self, name):
+        """bytes of a constant global (string literal / constant char array), or None"""
+        cache = self.__dict__.setdefault("_gb", {})
+        if name in cache:
+            return cache[name]
+        r = None
+        for m in self.prog.modules:
+            g = m.globals.get(name)
+            if g is not None and g.constant:
+                if g.bytes is not None:
+                    r = g.bytes
+                elif g.init is not None and g.init.kind == "array" and all(a.kind == "int" for a in g.init.args):
+                    r = bytes(a.v % 256 for a in g.init.args)
+                break
+        cache[name] = r
+        return r
 
     def fresh_root(self, state, hint, domain):
         state.nfresh += 1
@@ -416,7 +500,17 @@ class PE:
             if newv:
                 frame.regs = dict(frame.regs)
                 frame.regs.update(newv)
-            if n > self.loop_widen + 2:
+            if self.memo_joins and len(block.preds) >= 2 and len(stack) == 1:
+                from .cfg import cfg_of
+                live = cfg_of(fn).live_in()[block.name]
+                phis = {i.res for i in block.instrs if i.op == "phi"}
+                key = (id(fn), block.name, state.key(),
+                       frozenset((r, v) for r, v in frame.regs.items() if r in live or r in phis), self.trace_digest(state))
+                if key in self.seen:
+                    self.stats["memo_hits"] = self.stats.get("memo_hits", 0) + 1
+                    return []
+                self.seen.add(key)
+            elif n > self.loop_widen + 2:
                 key = (id(fn), block.name, state.key(), frozenset((k, v) for k, v in frame.regs.items()))
                 if key in self.seen:
                     return []
@@ -475,6 +569,8 @@ class PE:
             a, b = self.val(frame, i.ops[0], state), self.val(frame, i.ops[1], state)
             if a[0] == "ptr" or b[0] == "ptr":
                 v = TOP
+                if op == "sub" and a[0] == "ptr" and b[0] == "ptr" and a[1] == b[1]:
+                    v = self._ptrdiff(a, b)
             else:
                 v = mk(op, i.type, a, b)
         elif op == "icmp":
